@@ -22,7 +22,7 @@ EXPLANATION = (
     "construction; the small-size arms of the insertion index are evaluated on all orderings and the two fix-up "
     "loops move in the right direction with their floor/ceiling guards.")
 ASSUMPTIONS = ["timestamps are ordered by the ObsTime comparison operators (C03)", "float rounding of log in the bisection start is not decided"]
-TECHNIQUE = "abstract interpretation of the repository's Track class by the checker's AST interpreter on every small track (sizes 0..5, duplicate timestamps) and argument value, against the list model (bounded exhaustive case domain); write-effect summaries (F1)"
+TECHNIQUE = "abstract interpretation of the repository's Track class by the checker's AST interpreter on every small track (sizes 0..5, duplicate timestamps) and argument value, against the list model, concatenation of tracks with differing feature tables, and of the ObsTime comparison operators those operations rely on (all field-wise orderings incl. milliseconds) (bounded exhaustive case domains); write-effect summaries (F1)"
 
 
 def vr(v):
